@@ -2,6 +2,7 @@ package c19
 
 import (
 	"bytes"
+	"context"
 	"fmt"
 	"io"
 	"net/http"
@@ -11,6 +12,7 @@ import (
 	"testing"
 
 	httpmw "goa.design/goa/v3/http/middleware"
+	"goa.design/goa/v3/middleware"
 	"pgregory.net/rapid"
 
 	"verif/internal/kf"
@@ -192,7 +194,12 @@ func runCapture(h history, via, sink string, limit int, withRID bool) (captured,
 			cp.Status, cp.Bytes = rc.StatusCode, rc.ContentLength
 		})
 	} else {
-		handler = httpmw.Log(lg)(http.HandlerFunc(func(w http.ResponseWriter, r *http.Request) {
+		mw := httpmw.Log(lg)
+		if via == "logctx" {
+			// LogContext takes the logger from the request context
+			mw = httpmw.LogContext(func(context.Context) middleware.Logger { return lg })
+		}
+		handler = mw(http.HandlerFunc(func(w http.ResponseWriter, r *http.Request) {
 			cp.HandlerReqID = observeCtx(r.Context()).ReqID
 			h.play(w)
 		}))
@@ -227,7 +234,7 @@ func runCapture(h history, via, sink string, limit int, withRID bool) (captured,
 		// by the first Write/Flush); Result() tells through its status text
 		rcv = received{Status: rec.Code, HeaderWritten: len(h.Ops) > 0, Bytes: rec.Body.Len()}
 	}
-	if via == "log" {
+	if via != "direct" {
 		lg.mu.Lock()
 		defer lg.mu.Unlock()
 		if len(lg.lines) != 2 {
@@ -271,13 +278,13 @@ func checkCapture(h history, cp captured, rcv received) (string, bool) {
 func TestCapture(t *testing.T) {
 	rapid.Check(t, func(t *rapid.T) {
 		h := historyGen(t)
-		via := rapid.SampledFrom([]string{"direct", "direct", "log"}).Draw(t, "via")
+		via := rapid.SampledFrom([]string{"direct", "direct", "direct", "log", "logctx"}).Draw(t, "via")
 		sink := rapid.SampledFrom([]string{"recorder", "recorder", "recorder", "limited", "limited", "server"}).Draw(t, "sink")
 		limit := 0
 		if sink == "limited" {
 			limit = rapid.SampledFrom([]int{0, 1, 16, 300, 4096, 40000}).Draw(t, "breakAfter")
 		}
-		withRID := via == "log" && rapid.Bool().Draw(t, "withRequestID")
+		withRID := via != "direct" && rapid.Bool().Draw(t, "withRequestID")
 		key := fmt.Sprintf("capture|%+v|%s|%s|%d|%v", h, via, sink, limit, withRID)
 		stats.CaseSample(key, false, map[string]any{"test": "capture", "history": h, "via": via, "sink": sink, "break_after": limit})
 		stats.Class("capture-form:" + h.Form)
@@ -305,7 +312,7 @@ func TestCapture(t *testing.T) {
 		if rcv.Bytes > 0 && sink == "limited" {
 			stats.Class("capture:short-write")
 		}
-		if via == "log" {
+		if via != "direct" {
 			// "uses the request ID set by the RequestID middleware or creates a
 			// short unique request ID if missing"
 			if len(cp.LogIDs) != 2 || cp.LogIDs[0] != cp.LogIDs[1] {
